@@ -65,6 +65,13 @@ func parseVersion1(reader *bufio.Reader) (*Header, error) {
 		return nil, ErrCantReadProtocolVersionAndCommand
 	}
 	tokens := strings.Split(line[:len(line)-2], SEPARATOR)
+	// "PROXY UNKNOWN[ ...]\r\n": the receiver must ignore anything presented before
+	// the CRLF and use the real connection endpoints (spec 2.1), as for a v2 LOCAL command
+	if len(tokens) >= 2 && tokens[1] == "UNKNOWN" {
+		header := initVersion1()
+		header.Command = LOCAL
+		return header, nil
+	}
 	if len(tokens) < 6 {
 		state.ProxyErrInvalidHeader.Inc(1)
 		return nil, ErrCantReadProtocolVersionAndCommand
